@@ -135,10 +135,7 @@ class Sched:
 
     def _good_blocks(self, body):
         """blocks from which a return is reachable without passing a block that sets an error return value"""
-        errb = set()
-        for d in q.defs_in(body, body.cfg.reach):
-            if d[0] == 0 and not d[1] and all(q.is_err_term(a) for a in alts(d[2])):
-                errb.add(d[3])
+        errb = q.error_blocks(body)
         cfg = body.cfg
         good = set()
         st = [r for r in cfg.returns if r not in errb]
